@@ -112,7 +112,7 @@ def cases(tier):
             continue
         for n in _attr_names(obj):
             out.append(("attr", "(%s).%s" % (a, n)))
-    idx = ["0", "1", "2", "-1", "-2", "-3", "-4", "3", "0:1", "1:", "::2", '"a"', "None", "1.5", "True"]
+    idx = ["0", "1", "2", "-1", "-2", "-3", "-4", "3", "0:1", "1:", "::2", '"a"', "None", "1.5", "True", '"a":', "1.5:", "::0", ":None", "True:"]
     for a, i in itertools.product(ops, idx):
         out.append(("sub", "(%s)[%s]" % (a, i)))
     return out
